@@ -37,4 +37,19 @@ CHECKS["C07"] = {
             "to spreads/commissions/custom prices; per-trade booking oracle on before/after states; per-node per-date ledger oracle on whole backtests "
             "(cash change = flows - own securities' outlays - fees - capital passed to sub-strategies + swept carry).",
     "note": COMMON_NOTE + " The day-level ledger identity is decided by the oracle on implementation histories plus correspondence; it is not yet a theorem."}
+CHECKS["C03"] = {
+    "text": "Theorems: a new strategy's index is 100; at every update price x (last value + net flows) = last price x value (market-value strategies), "
+            "the index stays put on a zero base with zero value and the update refuses otherwise; a flow of any size and sign leaves the index unchanged when no "
+            "P&L has accrued on the date, and the unrestricted statement is refuted by a checked witness (known finding K3); the index depends on value, last value "
+            "and flows only through ratios (scale invariance of the formula). Correspondence: whole backtests incl. CapitalFlow schedules, bit-exact; recurrence "
+            "oracle on the recorded rows; metamorphic pairs (capital x4 with fractional positions and size-proportional costs give the same index).",
+    "note": COMMON_NOTE + " Scale invariance of whole runs is decided by the metamorphic pairs; only the formula-level invariance is a theorem."}
+CHECKS["C08"] = {
+    "text": "Theorems (all five security classes): re-running SecurityBase.update for the same date returns the very same record (idempotence), and an update writes "
+            "only the row of its own date in every history (append-only). Correspondence + oracle: histories replayed with duplicated updates and reads of every "
+            "accessor placed after updates (final states equal), pairs 'read on a stale tree' vs 'explicit update then read' (same returned value, same state), rows "
+            "before the clock compared between consecutive steps, all series accessors checked not to extend beyond the current date; a scenario family around "
+            "securities left idle over date changes.",
+    "note": COMMON_NOTE + " Idempotence of the strategy-level update is decided by the schedule suite, not yet by a theorem; comparisons use the 1e-9 relation because "
+            "coupons swept on the first update of a date re-associate a float sum."}
 NOT_APPLICABLE = {}
